@@ -418,8 +418,10 @@ func writeCSV(rs []rec) string {
 // sortedness of a record list with respect to join-field names, as -s
 // documents it ("sorted lexically" = ascending byte-wise string comparison,
 // field by field). Records lacking a join field have no sort key:
-//   strict: they all come after every keyed record (what `mlr sort -f` yields)
-//   loose:  they may sit anywhere
+//
+//	strict: they all come after every keyed record (what `mlr sort -f` yields)
+//	loose:  they may sit anywhere
+//
 // Empty-string keys are ordinary (smallest) keys for this purpose.
 func sortedness(rs []rec, names []string) (strict, loose bool) {
 	strict, loose = true, true
